@@ -105,8 +105,8 @@ def sigs():
     def unif(r):
         a = c(r, LOC)
         return [a, a + c(r, SCALE)]
-    add("uniform", [], unif, lambda r, p: p[0] + (p[1] - p[0]) * c(r, [0.0, 0.25, 0.5, 0.875]), lambda p: st.uniform(p[0], p[1] - p[0]))
-    add("uniform", ["low", "high"], unif, lambda r, p: p[0] + (p[1] - p[0]) * c(r, [0.0, 0.25, 0.5, 0.875]),
+    add("uniform", [], unif, lambda r, p: p[0] + (p[1] - p[0]) * c(r, [0.0, 0.25, 0.5, 0.875, 1.0]), lambda p: st.uniform(p[0], p[1] - p[0]))
+    add("uniform", ["low", "high"], unif, lambda r, p: p[0] + (p[1] - p[0]) * c(r, [0.0, 0.25, 0.5, 0.875, 1.0]),
         lambda p: st.uniform(p[0], p[1] - p[0]))
     add("exponential", [], lambda r: [c(r, SCALE)], lambda r, p: c(r, [0.0] + POSV), lambda p: st.expon(scale=1.0 / p[0]))
     add("exponential", ["rate"], lambda r: [c(r, SCALE)], lambda r, p: c(r, [0.0] + POSV), lambda p: st.expon(scale=1.0 / p[0]))
